@@ -28,6 +28,16 @@
 //!  * `Ipv4Addr`/`Ipv6Addr` on their own are not registered: their `Serial`
 //!    writes a tag byte that only `IpAddr::deserial` reads (serialize.rs:766-798); they
 //!    are node-networking leftovers, not chain types. `IpAddr`/`SocketAddr` are registered.
+//!  * Violations are reported through a minimised witness (shortest violating prefix, smallest
+//!    field values). A canonicity violation is attributed to the innermost registered decoder
+//!    that shows it at the same position with the same canonical byte. Allocation witnesses: one
+//!    per type and shard; for decoders whose allocation is driven by a 64-bit field (found by the
+//!    abort-safe pre-flight probe: 8-byte windows from right to left, ascending values) the
+//!    witness is only truncated, never edited, the random mutation part is skipped, and the
+//!    decoder is not used for attribution, because arbitrary bytes can make it request more than
+//!    the allocator's hard limit (16 GiB), which aborts the process (then reported by the
+//!    orchestrator as a crash violation).
+//!  * `ed25519::SigningKey` has no `decode_ok` floor (its encodings do not decode; see findings).
 //!  * Identity-pipeline objects (pre-identity objects, credentials) are created
 //!    by library functions that draw from `thread_rng` internally
 //!    (`generate_pio`, `create_credential`), so those fixture values are not a
